@@ -7,7 +7,7 @@ use std::time::{Duration, Instant};
 
 use nucleo::pattern::{CaseMatching, Normalization};
 use nucleo::verif::{set_hook, Point};
-use nucleo::{Config, Nucleo, Status};
+use nucleo::{Config, Nucleo, Status, Utf32String};
 
 use crate::jobj;
 use crate::json::J;
@@ -281,8 +281,9 @@ fn scenario_restart(rng: &mut Rng, id: String, rep: &mut Report, props: &[&str])
     w.edit(0, *rng.pick(&["o", "", "a", "fo"]));
     let n_old = rng.range(50, 1500);
     w.push_via(k, n_old, true);
-    let variant = rng.below(7);
-    let clear = rng.coin();
+    // (restart twice without a tick has the most sub-cases and gets a double share)
+    let variant = [0, 1, 2, 2, 3, 4, 5, 6, 2][rng.below(9)];
+    let clear = if variant == 2 { rng.chance(1, 4) } else { rng.coin() };
     let mut gap_behind = 0usize;
     // old injectors keep pushing from two threads across all of it
     let stop = Arc::new(AtomicBool::new(false));
@@ -353,7 +354,7 @@ fn scenario_restart(rng: &mut Rng, id: String, rep: &mut Report, props: &[&str])
                 rep.count("directed.restart.twice-without-tick.stream-with-a-hole");
             }
             w.push_via(k2, 40, false);
-            if rng.coin() {
+            if rng.chance(3, 4) {
                 // the matcher becomes the sole owner of that stream before the next restart
                 w.drop_injector(k2);
                 rep.count("directed.restart.twice-without-tick.sole-owner");
@@ -1579,14 +1580,31 @@ pub fn run_race(opts: &Opts, rep: &mut Report, items: u32, injectors: usize, poo
                 let base = t as u32 * items;
                 let mut reads = 0u64;
                 let mut i = 0;
+                // some writers stay between reserving and publishing for a while (a slow fill callback: half of the columns are
+                // written, then a pause without any synchronisation, then the rest), so that background runs - including
+                // cancelled ones and their successors - meet entries in that state
+                let slow_fill = |p: &Payload, c: &mut [Utf32String]| {
+                    if p.id % 3 == 0 {
+                        let (first, rest) = c.split_at_mut(c.len() / 2);
+                        fill_cols(p.id, first);
+                        for _ in 0..(p.id % 7) * 300 {
+                            std::hint::spin_loop();
+                        }
+                        for (k, col) in rest.iter_mut().enumerate() {
+                            *col = crate::m_worker::item_text(p.id, first.len() + k).into();
+                        }
+                    } else {
+                        fill_cols(p.id, c);
+                    }
+                };
                 while i < items {
                     if t % 2 == 0 {
-                        inj.push(Payload::new(base + i, 0, &reg), |p, c| fill_cols(p.id, c));
+                        inj.push(Payload::new(base + i, 0, &reg), slow_fill);
                         i += 1;
                     } else {
                         let n = (items - i).min(9);
                         let batch: Vec<Payload> = (0..n).map(|k| Payload::new(base + i + k, 0, &reg)).collect();
-                        inj.extend(batch.into_iter(), |p, c| fill_cols(p.id, c));
+                        inj.extend(batch.into_iter(), slow_fill);
                         i += n;
                     }
                     // lookups through the injector that never touch the counter
@@ -1600,15 +1618,19 @@ pub fn run_race(opts: &Opts, rep: &mut Report, items: u32, injectors: usize, poo
             }));
         }
         go.store(true, Ordering::Relaxed);
-        let texts = ["o", "oo", "", "a", "fo", "f"];
+        // replaced texts (rescore) and typed extensions (update of the previous matches)
+        let texts = ["o", "oo", "", "a", "a ", "a b", "fo", "foo", "f", "", "o", "o b"];
         let mut ticks = 0u64;
         let mut matched_reads = 0u64;
+        let mut last_text = "";
         let total = items * injectors as u32;
         let mut round = 0;
         loop {
             if round % 3 == 1 {
                 let t = texts[(round / 3) % texts.len()];
-                nucleo.pattern.reparse(0, t, CaseMatching::Smart, Normalization::Smart, false);
+                let append = t.starts_with(last_text) && !last_text.is_empty();
+                nucleo.pattern.reparse(0, t, CaseMatching::Smart, Normalization::Smart, append);
+                last_text = t;
             }
             if round == 7 {
                 nucleo.update_config(Config::DEFAULT.match_paths());
